@@ -50,22 +50,31 @@ fn backward_error(c: &[C], z: C) -> f64 {
 const BE_REFINED: f64 = 1e-9;
 const BE_UNREFINED_SMALL: f64 = 1e-9;
 const BE_UNREFINED_LARGE: f64 = 1e-2;
+/// linear / quadratic closed forms are backward stable: rounding level
+const BE_QUADRATIC: f64 = 1e-12;
+/// Cardano's formula on coefficients of mixed scale loses digits (worst observed 7.7e-10 on the wide-scale lattice)
+const BE_CARDANO: f64 = 1e-7;
 const MATCH_TOL: f64 = 1e-6;
 
 fn judge_roots(coef: &[C], got: &[C], refine: bool, has_large: bool, acc: &mut Acc, tag: &'static str) -> Result<(), String> {
     let n = coef.len() - 1;
     ensure!(got.len() == n, "{} values returned for a degree-{} polynomial", got.len(), n);
     ensure!(got.iter().all(|z| z.0.is_finite() && z.1.is_finite()), "non-finite value among the returned roots: {:?}", got);
+    // the closed-form paths (degree <= 3) involve no deflation: no allowance for large roots there
+    let has_large = has_large && n >= 4;
     let thr = if refine { BE_REFINED } else if has_large { BE_UNREFINED_LARGE } else { BE_UNREFINED_SMALL };
     let mut worst = 0.0f64;
     for &z in got {
         worst = worst.max(backward_error(coef, z));
     }
-    let name = match (refine, has_large) {
-        (true, _) => "backward_error_refined",
-        (false, false) => "backward_error_unrefined_roots_below_10",
-        (false, true) => "backward_error_unrefined_with_root_1e3",
+    let name = match (refine, has_large, n) {
+        (true, _, _) => "backward_error_refined",
+        (false, _, 1) | (false, _, 2) => "backward_error_unrefined_closed_form_degree_1_2",
+        (false, _, 3) => "backward_error_unrefined_cardano_degree_3",
+        (false, false, _) => "backward_error_unrefined_roots_below_10",
+        (false, true, _) => "backward_error_unrefined_with_root_1e3",
     };
+    let thr = if !refine && n <= 2 { BE_QUADRATIC } else if !refine && n == 3 { BE_CARDANO } else { thr };
     acc.worst(name, worst, || format!("{} coeffs={:?}", tag, coef));
     ensure!(worst <= thr, "a returned value is not a root: backward error {:e} > {:e}; returned {:?}", worst, thr, got);
     Ok(())
@@ -343,15 +352,176 @@ fn high_degree_space(ctx: &Ctx, maxbase: usize) {
     );
 }
 
+/// wide-scale complex coefficient lattice: mixed scale (1e-3 .. 1e3) and purely imaginary coefficients
+fn wide_scale_space(ctx: &Ctx, deg: usize) {
+    let letters: Vec<C> = vec![(1., 0.), (0., 1.), (1e3, 0.), (-1e3, 0.), (0., 1e3), (0., -1e3), (1e-3, 0.), (-1e-3, 0.), (0., 1e-3), (0., -1e-3)];
+    let nl = letters.len() as u64;
+    let len = pow(nl, (deg + 1) as u32) * 2;
+    ctx.lattice(
+        &format!("wide-scale coefficient lattice degree {}: all coefficient vectors over {{1, i, +-1e3, +-1e3 i, +-1e-3, +-1e-3 i}} x refine", deg),
+        len,
+        |idx| format!("{}", idx),
+        |idx, acc| {
+            let refine = idx % 2 == 1;
+            let mut rest = idx / 2;
+            let mut c: Vec<C> = vec![];
+            for _ in 0..=deg {
+                c.push(letters[(rest % nl) as usize]);
+                rest /= nl;
+            }
+            acc.nontriv("coefficients of mixed scale (ratio up to 1e6)");
+            if c[1..].iter().any(|z| z.0 == 0.0) {
+                acc.hit("purely imaginary inner or leading coefficient");
+            }
+            let key = || format!("wide-scale coeffs={:?} refine={}", c, refine);
+            let mut local = Acc::new("t");
+            let res = catch(|| -> Result<(), String> {
+                let g = run_cmplx(&c, refine);
+                // roots can be as large as 1e6 here: the unrefined bound of the large-root class applies
+                judge_roots(&c, &g, refine, true, &mut local, "wide-scale")
+            });
+            acc.merge_worst(local);
+            match res {
+                Ok(Ok(())) => {}
+                Ok(Err(e)) => acc.fail(idx, key(), e),
+                Err(p) => acc.fail(idx, key(), format!("unexpected panic: {}", p)),
+            }
+        },
+    );
+}
+
+// --- E2: a polynomial object that is queried, edited and queried again ------------------------------------------
+#[derive(Clone)]
+struct St {
+    p: Polynomial<Cmplx>,
+    pr: Polynomial<f64>,
+    m: Vec<f64>,
+}
+#[derive(Clone, Debug)]
+enum Act {
+    SetIdx(usize, i64),
+    SetViaCoeffs(usize, i64),
+    Push(i64),
+    Pop,
+    Trim,
+}
+fn bits_of(v: &[C]) -> Vec<(u64, u64)> {
+    v.iter().map(|z| (z.0.to_bits(), z.1.to_bits())).collect()
+}
+impl mc::bfs::Sut for St {
+    type Act = Act;
+    fn key(&self) -> mc::bfs::Key {
+        let mut k = vec![self.m.len() as i128];
+        for x in &self.m {
+            k.push(x.to_bits() as i128);
+        }
+        k
+    }
+    fn actions(&self) -> Vec<Act> {
+        let n = self.m.len();
+        let mut a = vec![];
+        for i in 0..n {
+            for v in [0, 1, -2] {
+                a.push(Act::SetIdx(i, v));
+            }
+            a.push(Act::SetViaCoeffs(i, 3));
+        }
+        if n < 6 {
+            a.push(Act::Push(1));
+            a.push(Act::Push(-1));
+        }
+        if n > 2 {
+            a.push(Act::Pop);
+        }
+        a.push(Act::Trim);
+        a
+    }
+    fn warm(&self) {
+        // a one-entry memo keeps only the LAST query: end the warm-up with the flag the check will ask for first
+        let f = self.m.len() % 2 == 0;
+        let _ = catch(|| self.p.roots(!f));
+        let _ = catch(|| self.p.roots(f));
+        let _ = catch(|| self.pr.roots(!f));
+        let _ = catch(|| self.pr.roots(f));
+    }
+    fn step(&mut self, a: &Act, hits: &mut Vec<&'static str>) -> Result<(), String> {
+        match a.clone() {
+            Act::SetIdx(i, v) => {
+                self.p[i] = Cmplx::new(v as f64, 0.0);
+                self.pr[i] = v as f64;
+                self.m[i] = v as f64;
+                hits.push("coefficient written through IndexMut after a roots() call");
+            }
+            Act::SetViaCoeffs(i, v) => {
+                self.p.coeffs()[i] = Cmplx::new(v as f64, 0.0);
+                self.pr.coeffs()[i] = v as f64;
+                self.m[i] = v as f64;
+            }
+            Act::Push(v) => {
+                self.p.coeffs().push(Cmplx::new(v as f64, 0.0));
+                self.pr.coeffs().push(v as f64);
+                self.m.push(v as f64);
+            }
+            Act::Pop => {
+                self.p.coeffs().pop();
+                self.pr.coeffs().pop();
+                self.m.pop();
+            }
+            Act::Trim => {
+                self.p.trim();
+                self.pr.trim();
+                while self.m.len() > 1 && *self.m.last().unwrap() == 0.0 {
+                    self.m.pop();
+                }
+            }
+        }
+        self.check()
+    }
+    fn check(&self) -> Result<(), String> {
+        ensure!(self.p.size() == self.m.len() && self.pr.size() == self.m.len(), "size {} / {} expected {}", self.p.size(), self.pr.size(), self.m.len());
+        for i in 0..self.m.len() {
+            ensure!(self.p[i] == Cmplx::new(self.m[i], 0.0) && self.pr[i] == self.m[i], "coefficient {}", i);
+        }
+        let lead = *self.m.last().unwrap();
+        if self.m.len() < 2 || lead == 0.0 {
+            return Ok(()); // degree 0 or zero leading coefficient: outside the claim
+        }
+        let c: Vec<C> = self.m.iter().map(|x| (*x, 0.0)).collect();
+        let f0 = self.m.len() % 2 == 0;
+        for refine in [f0, !f0] {
+            // differential oracle: the object with a history must answer exactly like a freshly built one
+            let fresh = run_cmplx(&c, refine);
+            let hist: Vec<C> = self.p.roots(refine).vec.iter().map(|z| (z.real, z.imag)).collect();
+            ensure!(bits_of(&fresh) == bits_of(&hist), "roots({}) of the edited object {:?} differ from those of a fresh polynomial {:?} (coefficients {:?})", refine, hist, fresh, self.m);
+            let freshr: Vec<C> = Polynomial::new(self.m.clone()).roots(refine).vec.iter().map(|z| (z.real, z.imag)).collect();
+            let histr: Vec<C> = self.pr.roots(refine).vec.iter().map(|z| (z.real, z.imag)).collect();
+            ensure!(bits_of(&freshr) == bits_of(&histr), "Polynomial<f64>::roots({}) of the edited object differs from a fresh one (coefficients {:?})", refine, self.m);
+            let mut local = Acc::new("t");
+            judge_roots(&c, &hist, refine, false, &mut local, "history")?;
+        }
+        Ok(())
+    }
+    fn classes(&self, hits: &mut Vec<&'static str>) {
+        if self.m.len() >= 5 {
+            hits.push("history state of degree >= 4");
+        }
+    }
+    fn show(&self) -> String {
+        format!("{:?}", self.m)
+    }
+}
+
 fn main() {
     let ctx = Ctx::from_args("C10");
-    ctx.level("exploration");
-    ctx.rule("E1: (a) every multiset of 1..5 (quick) / 1..7 (thorough) roots from {0,+-1,+-i,2,1/2,1+-i,-3,1e3,1e-3} x leading coefficient {1,-2,3i,1e3} x refine, through Polynomial<Cmplx>::roots; conjugate-closed multisets through Polynomial<f64>::roots; (b) every coefficient vector over 5 integer / Gaussian-integer letters with non-zero lead for degree 1..4 (thorough 5); (c) degree 8..12 products with x^k-1. Oracle: exactly n finite values; |p(z)|/(max|a_k| max(1,|z|)^n) <= 1e-9 (refined, and unrefined when all roots are below 10 in modulus; 1e-2 unrefined with a root 1e3); simple roots separated by >= 1/2 are matched one-to-one within 1e-6 (refined); degree 0 is rejected. Non-trivial: roots at zero, repeated roots, non-real roots, vanishing inner coefficients, iterative path.");
+    ctx.level("model_checking");
+    ctx.rule("E2: BFS over histories in which a polynomial object is queried for its roots, edited (index writes, coeffs() writes / push / pop, trim) and queried again: the answers must be bit-identical to those of a freshly built polynomial and pass the root oracle; plus a wide-scale complex coefficient lattice (1, i, +-1e3, +-1e3 i, +-1e-3, +-1e-3 i) of degree 2, 3 (4 thorough). E1: (a) every multiset of 1..5 (quick) / 1..7 (thorough) roots from {0,+-1,+-i,2,1/2,1+-i,-3,1e3,1e-3} x leading coefficient {1,-2,3i,1e3} x refine, through Polynomial<Cmplx>::roots; conjugate-closed multisets through Polynomial<f64>::roots; (b) every coefficient vector over 5 integer / Gaussian-integer letters with non-zero lead for degree 1..4 (thorough 5); (c) degree 8..12 products with x^k-1. Oracle: exactly n finite values; |p(z)|/(max|a_k| max(1,|z|)^n) <= 1e-9 (refined, and unrefined when all roots are below 10 in modulus; 1e-2 unrefined with a root 1e3); simple roots separated by >= 1/2 are matched one-to-one within 1e-6 (refined); degree 0 is rejected. Non-trivial: roots at zero, repeated roots, non-real roots, vanishing inner coefficients, iterative path.");
     ctx.assume("multisets with more than one root of modulus 1e3 or 1e-3 are skipped: their coefficient ratio exceeds the 1e6 of the property's domain");
     ctx.threshold("backward_error_refined", BE_REFINED);
     ctx.threshold("backward_error_unrefined_roots_below_10", BE_UNREFINED_SMALL);
     ctx.threshold("backward_error_unrefined_with_root_1e3", BE_UNREFINED_LARGE);
-    ctx.require(&["repeated root", "root at zero", "non-real root", "iterative path (degree >= 4)", "closed-form path (degree <= 3)", "vanishing inner coefficient", "conjugate pair", "matched against the true roots", "degree 8..12"]);
+    ctx.threshold("backward_error_unrefined_closed_form_degree_1_2", BE_QUADRATIC);
+    ctx.threshold("backward_error_unrefined_cardano_degree_3", BE_CARDANO);
+    ctx.require(&["repeated root", "root at zero", "non-real root", "iterative path (degree >= 4)", "closed-form path (degree <= 3)", "vanishing inner coefficient", "conjugate pair", "matched against the true roots", "degree 8..12", "coefficients of mixed scale (ratio up to 1e6)", "coefficient written through IndexMut after a roots() call", "history state of degree >= 4"]);
     for k in 1..=ctx.pick(5, 7) {
         multiset_space(&ctx, k);
     }
@@ -361,6 +531,20 @@ fn main() {
         coeff_space(&ctx, d, true);
     }
     high_degree_space(&ctx, ctx.pick(2, 4));
+    wide_scale_space(&ctx, 2);
+    wide_scale_space(&ctx, 3);
+    if ctx.thorough() {
+        wide_scale_space(&ctx, 4);
+    }
+    {
+        let depth = ctx.pick(3, 4);
+        let mk = |m: Vec<f64>| St { p: Polynomial::new(m.iter().map(|x| Cmplx::new(*x, 0.0)).collect()), pr: Polynomial::new(m.clone()), m };
+        let inits = vec![mk(vec![-4.0, -3.0, 1.0]), mk(vec![2.0, 0.0, -3.0, 1.0]), mk(vec![-1.0, 0.0, 0.0, 0.0, 1.0])];
+        mc::bfs::explore(&ctx, "query / edit / query histories on one polynomial object", inits.clone(), mc::bfs::BfsOpts { max_depth: depth, state_cap: ctx.pick(300_000, 5_000_000) });
+        if ctx.quick() {
+            mc::bfs::crosscheck_stateright(&ctx, "query / edit / query histories on one polynomial object", inits, depth);
+        }
+    }
     // degree 0 is rejected
     ctx.lattice(
         "degree-0 polynomials are rejected",
